@@ -38,7 +38,7 @@ ASSUMPTIONS = [
     "io theorems: counter names are words without ':' and each appears on one line; junk lines contain no ': '",
 ]
 MANIFEST = {
-    "level_text": "Machine-checked Lean 4 proofs over a model of _pslinux.Process.open_files/num_fds/io_counters, readlink() and file_flags_to_mode(): the mode string is the documented function of O_ACCMODE x O_APPEND for EVERY flag word (other bits proved irrelevant, total including access mode 3), open_files over the kernel-rendered descriptor table equals the list of still-open regular absolute descriptors for ALL tables (induction; pos decimal, flags octal round trip for all naturals), closing descriptors (before readlink, before the open of fdinfo, or after it at the first/second read; ENOENT/ESRCH; any subset) never fail a live process, a vanished process gives NoSuchProcess, num_fds = table length, io_counters returns the six kernel counters under the documented names for all values and tolerates blank / junk / unknown / non-numeric extra lines. Tied to the code by 28 translator facts consumed by the proof obligation cfg_good and by a differential run of the real front-end methods on a fake procfs (exhaustive over all 4096 low flag words, both through file_flags_to_mode and end to end).",
+    "level_text": "Machine-checked Lean 4 proofs over a model of _pslinux.Process.open_files/num_fds/io_counters, readlink() and file_flags_to_mode(): the mode string is the documented function of O_ACCMODE x O_APPEND for EVERY flag word (other bits proved irrelevant, total including access mode 3), open_files over the kernel-rendered descriptor table equals the list of still-open regular absolute descriptors for ALL tables (induction; pos decimal, flags octal round trip for all naturals), closing descriptors (before readlink, before the open of fdinfo, or after it at the first/second read; ENOENT/ESRCH; any subset) never fail a live process, a vanished process gives NoSuchProcess, num_fds = table length, io_counters returns the six kernel counters under the documented names for all values and tolerates blank / junk / unknown / non-numeric extra lines. Tied to the code by 27 translator facts consumed by the proof obligation cfg_good and by a differential run of the real front-end methods on a fake procfs (exhaustive over all 4096 low flag words, both through file_flags_to_mode and end to end).",
     "level_note": "Trusted: Lean kernel + {propext, Classical.choice, Quot.sound}; the translator; the correspondence harness; kernel formats as written in Spec/C14.lean; CPython int/split/strip/replace as modelled; no EACCES from stat; no zombie state.",
     "technique": "Lean 4 proofs (finite case analysis on flags via bit lemmas, list induction over tables, round trip of decimal/octal renderers) + translator-fed proof obligation + differential correspondence on a fake procfs",
     "design_ref": "DESIGN.md §5 C14",
